@@ -10,6 +10,7 @@ from dimarray.compat.pycompat import dictkeys, dictvalues
 
 from .core import DimArray, array, Axis, Axes
 from .core import align as align_axes, stack, concatenate
+from .core.indexing import locate_many
 from .core.align import _check_stack_args, _get_axes, stack, concatenate, _check_stack_axis, get_dims as _get_dims, reindex_like
 from .core.transform import interp_like, _interp_internal_from_weight, _interp_internal_get_weights, _interp_internal_maybe_sort
 from .core import pandas_obj
@@ -691,14 +692,17 @@ class Dataset(AbstractDataset, dict, OpMixin, GetSetDelAttrMixin):
         else:
             values = np.asarray(values)
 
-        # take axis, do not raise error
-        dataset = self.take_axis(values, axis=axis, indexing='label', 
-                                 mode='raise' if raise_error else 'clip')
+        # locate the new values like DimArray.reindex_axis does (`method` is the search side)
+        indices = locate_many(self.axes[axis].values, values, side=method or 'left')
+        dataset = self.take_axis(indices, axis=axis, indexing='position')
 
         # Replace mismatch with missing values?
         newax = dataset.axes[axis]
         mask = newax.values != values
         any_nan = np.any(mask)
+
+        if any_nan and raise_error:
+            raise IndexError("Some values where not found in the axis: {}".format(values[mask]))
 
         if any_nan:
             # Make sure the axis values match the requested new axis
